@@ -1201,6 +1201,13 @@ class Interp:
             self.oblige(env, "div-nonzero", n, tm.Ne(rr, R(0)))
             s = dot(v, r) / rr
             return Vec([x * s for x in r.c])
+        if m == "project_onto_normalized":
+            # glam: `rhs * self.dot(rhs)` (rhs is ASSUMED to be of unit length by glam; nothing is assumed here)
+            r = a[0]; s = dot(v, r)
+            return Vec([x * s for x in r.c])
+        if m in ("reject_from", "reject_from_normalized"):
+            pr = self.vec_method(env, n, v, "project_onto" + m[len("reject_from"):], a)
+            return Vec([x - y for x, y in zip(v.c, pr.c)])
         if m == "abs": return Vec([tm.Abs(x) for x in v.c])
         if m == "signum": return Vec([self.signum(env, n, x) for x in v.c])
         if m == "extend": return Vec(v.c + [a[0]])
